@@ -11,3 +11,6 @@ add("C20", "DESIGN.md §5 C20",
     "The access-control closure and handler are executed for every 4/16-byte remote IP, whitelists of ≤2 parsed IPs with/without '*', and every subset of LAN switches: allow ⇒ a stated reason, deny ⇒ 403 and inner handler not invoked, configured origins are served, malformed addresses denied.",
     "ResolveTCPAddr/ParseIP/IP.String by contract; amount rendering and binding-target parts pending.")
 NA["C17"] = "delivery/ordering/shutdown across ≥6 kinds of goroutines over channels, contexts, a worker pool and TCP connections: no encoding of the Go scheduler, net.Conn or timers is within reach of SSA-to-SMT symbolic execution here, and fractal/ has no single lock that would make run-to-block sequentialisation sound (DESIGN.md §6)"
+add("C18", "DESIGN.md §5 C18",
+    "CKDpriv and CKDpub are executed symbolically against BIP32 written out in the harness, for every chain code, index (full uint32 range), depth and private key of stored length 32/31/30 bytes: HMAC key and data, child key = (IL+k) mod n, chain code, depth, fingerprint, child number, hardened-from-public refusal, and Neuter(CKDpriv) = CKDpub(Neuter). Counterexamples are replayed with real HMAC-SHA512/secp256k1 against a reference derivation.",
+    "HMAC/Hash160 are uninterpreted functions; the curve subgroup is modelled in discrete-log form (isomorphic group); big.Int as 264-bit vectors. Text and mnemonic round trips pending.")
